@@ -635,6 +635,66 @@ impl Engine for C19 {
             }
         }
 
+        // ---------------- T1': two resolutions of the same roots in flight on this thread at once (what `join!` of two
+        // calls does), polled in a drawn interleaving: each has to give the T0 answer (missed seeded change C19-17: a
+        // thread-local "in progress" set meant for cycle detection)
+        if p.net.max_latency > 0 && p.net.seed % 5 == 0 {
+            st.tier("T1");
+            st.probe("two_resolutions_interleaved");
+            let net = SimNet::new(u, &store, &p.net.without_faults());
+            let resolvers: Vec<Resolver> = u.repos.iter().map(|r| Resolver { name: Cow::Borrowed(r.name.as_str()), maven: Cow::Borrowed(r.url.as_str()) }).collect();
+            let roots: Vec<(MavenCoord, DependencyScope)> = u.roots.iter().map(|r| (MavenCoord { group: r.group.clone(), artifact: r.artifact.clone(), version: r.version.clone(), classifier: r.classifier.clone(), type_: r.type_.clone().unwrap_or_else(|| "jar".to_string()) }, to_real_scope(r.scope))).collect();
+            let res = no_panic(|| {
+                let flag = Arc::new(WakeFlag(AtomicBool::new(false)));
+                let waker = Waker::from(flag.clone());
+                let mut cx = Context::from_waker(&waker);
+                let mut fa = std::pin::pin!(get_maven_dependencies(&net, &resolvers, &roots));
+                let mut fb = std::pin::pin!(get_maven_dependencies(&net, &resolvers, &roots));
+                let (mut ra, mut rb) = (None, None);
+                let mut pick = crate::rng::Rng::new(p.net.seed ^ 0x7717);
+                let mut n = 0u64;
+                while (ra.is_none() || rb.is_none()) && n < 4 * step_budget + 64 {
+                    n += 1;
+                    let a_turn = if ra.is_some() { false } else if rb.is_some() { true } else { pick.chance(50) };
+                    if a_turn {
+                        if let Poll::Ready(v) = fa.as_mut().poll(&mut cx) {
+                            ra = Some(v.map(|f| f.iter().map(|x| format!("{}|{}|{}", x.coord, x.scope, x.resolver.maven)).collect::<Vec<_>>()).map_err(|e| format!("{e:#}")));
+                        }
+                    } else if let Poll::Ready(v) = fb.as_mut().poll(&mut cx) {
+                        rb = Some(v.map(|f| f.iter().map(|x| format!("{}|{}|{}", x.coord, x.scope, x.resolver.maven)).collect::<Vec<_>>()).map_err(|e| format!("{e:#}")));
+                    }
+                }
+                (ra, rb, n)
+            });
+            match res {
+                Err(pm) => out.push(Violation::new("T1", "panic", panic_path(&pm), pm)),
+                Ok((ra, rb, n)) => {
+                    st.sim_polls += n;
+                    st.sched.u64(0x2222 ^ n);
+                    // reference: one more single resolution over a fresh net of the same plan, rendered the same way
+                    let net_s = SimNet::new(u, &store, &p.net.without_faults());
+                    let mut polls = 0u64;
+                    let single = no_panic(|| {
+                        let fut = get_maven_dependencies(&net_s, &resolvers, &roots);
+                        match run_to_end(fut, step_budget, None, &mut polls) {
+                            Ran::Done(v) => Some(v.map(|f| f.iter().map(|x| format!("{}|{}|{}", x.coord, x.scope, x.resolver.maven)).collect::<Vec<_>>()).map_err(|e| format!("{e:#}"))),
+                            _ => None,
+                        }
+                    });
+                    if let Ok(Some(single)) = single {
+                        for (which, r) in [("first", &ra), ("second", &rb)] {
+                            match (r, &single) {
+                                (None, _) => out.push(Violation::new("T1", "runaway", "two-resolutions", format!("the {which} of two interleaved resolutions did not finish"))),
+                                (Some(Ok(a)), Ok(b)) if a == b => {}
+                                (Some(Err(_)), Err(_)) => {}
+                                (Some(x), y) => out.push(Violation::new("T1", "schedule-dependence", "two-resolutions.result", format!("the {which} of two resolutions interleaved on one thread gives {:?}, a single one {:?}", x.as_ref().map(|v| v.len()).map_err(|e| e.chars().take(200).collect::<String>()), y.as_ref().map(|v| v.len()).map_err(|e| e.chars().take(200).collect::<String>())))),
+                            }
+                        }
+                    }
+                }
+            }
+        }
+
         // ---------------- T2: faults
         if !p.net.faults.is_empty() {
             st.tier("T2");
